@@ -8,6 +8,7 @@ mod events;
 mod interpose;
 mod lifecycle;
 mod panics;
+mod placement;
 mod pool;
 mod watch;
 
@@ -35,6 +36,7 @@ fn main() {
     interpose::seed(seed_from_env());
     match args[1].as_str() {
         "lifecycle" => lifecycle::run(&args[2], &args[3]),
+        "placement" => placement::run(&args[2], &args[3]),
         "selfcheck" => {
             // used by `check.py setup`: proves interposition is live
             events::open(&args[2]);
